@@ -109,6 +109,12 @@ def ops : List (String × Op) := [
                         | "None" :: ts => set ts; pure none
                         | _ => do let d ← pDict; pure (some d))
       if !keysDistinct q then pure "n/a" else pure (verdict (okFilterSort q r))),
+  -- gene biotype of one locus from its transcript feature types (mRNA ↦ protein_coding, else the type's own name)
+  ("gbiotype", do
+      let tys ← pList pStr; pArrow
+      let a ← pAns pStr
+      let names := tys.map fun t => if t == "mRNA".toList then "protein_coding".toList else t
+      if names.isEmpty then pure "n/a" else pure (verdict (okBiotype names a))),
   ("ltgroup", do
       let fs ← pList pFeat; pArrow
       let r ← pAns (pList pGroup)
